@@ -5,7 +5,6 @@ Keys are code points; the line buffer is a list of code points.
 -/
 namespace Mkdb.Console
 
-def maxLineLength : Nat := 4096
 def keyEnter : Nat := 13
 
 /-- `isPrintable` and not one of the keys `handleKey` treats specially. -/
@@ -74,7 +73,8 @@ def step (t : Term) (k : Nat) : Term × Option (List (List Nat)) :=
     if rest.all isSpace then ({ line := [] }, some stmts)
     else ({ line := t.line ++ [32] }, none)
   else if isPrintable k then
-    if t.line.length == maxLineLength then (t, none) else ({ line := t.line ++ [k] }, none)
+    -- (no limit on the length of an entry: a key dropped in silence loses or mutilates a statement)
+    ({ line := t.line ++ [k] }, none)
   else (t, none)
 
 /-- All submissions of a key sequence, in order. -/
